@@ -1,5 +1,5 @@
 from .. import facts
-from ..rules import gradient, opacity
+from ..rules import gradient, opacity, sampling
 
 
 def run(ck):
@@ -17,3 +17,4 @@ def run(ck):
     gradient.r12_step_matches_component(ck, P)
     opacity.r2_opacity_flags(ck, P)       # C09-R2: a radial gradient is opaque only when every pixel has an admissible t (a < 0)
     gradient.r13_homogeneous_degrees(ck, P)
+    sampling.r16_skip_only_on_zero_mask_word(ck, P, 'C13-R14')
